@@ -132,6 +132,7 @@ func (h *SH) Note(tok int) { h.C.enter(nil, "Note", tok) }
 func (h *SH) Sub(ctx context.Context, tok int, n int) (<-chan int, error) {
 	h.C.enter(ctx, "Sub", tok)
 	out := make(chan int)
+	h.RT.Log("h.subch", "tok", tok, "hp", out)
 	go func() {
 		defer close(out)
 		for i := 0; n < 0 || i < n; i++ {
@@ -189,6 +190,9 @@ type Env struct {
 	TS     *httptest.Server
 	PX     *px.Proxy
 	closed int32
+	// SlowClose: the HTTP server did not finish its handlers within 3s of all connections being closed
+	SlowClose bool
+	CloseTook time.Duration
 }
 
 // NewEnv starts server and proxy.  The hook runtime is installed for the lifetime of the Env.
@@ -220,12 +224,27 @@ func (e *Env) Close() {
 	}
 	e.RT.ReleaseAll()
 	e.PX.Close()
+	t0 := time.Now()
 	done := make(chan struct{})
-	go func() { e.TS.Close(); close(done) }()
+	go func() { e.TS.CloseClientConnections(); e.TS.Close(); close(done) }()
 	select {
 	case <-done:
 	case <-time.After(3 * time.Second):
+		e.SlowClose = true
 	}
+	// let the goroutines of this environment's connections run to their end before the next
+	// environment installs its runtime (the hook entry point is process-global)
+	stable, last := 0, -1
+	for i := 0; i < 150 && stable < 4; i++ {
+		n := e.RT.Len()
+		if n == last {
+			stable++
+		} else {
+			stable, last = 0, n
+		}
+		time.Sleep(time.Millisecond)
+	}
+	e.CloseTook = time.Since(t0)
 	hk.Uninstall()
 }
 
